@@ -179,6 +179,9 @@ func c01CLI(a vh.Args, r *vh.Result, rng *vh.Rand, n int) error {
 		r.Note("VH_DESYNC not set: CLI cases skipped")
 		return nil
 	}
+	if err := c01CLISeedDir(a, r, rng, bin); err != nil {
+		return err
+	}
 	hangs := 0
 	for k := 0; k < n && hangs < 2; k++ {
 		c := c01Gen(rng)
@@ -198,6 +201,144 @@ func c01CLI(a vh.Args, r *vh.Result, rng *vh.Rand, n int) error {
 		}
 		if cc.Exit == -2 {
 			hangs++
+		}
+	}
+	return nil
+}
+
+// c01CLISeedDir: `desync extract --seed-dir DIR` where DIR also holds the index being extracted
+// and, next to it, a file of the same base name that is NOT its blob (the target itself when an
+// interrupted extract is resumed).  The command must leave that pair out of the seeds however
+// the directory and the index are spelled (absolute / relative / ./ / doubled slash), and succeed.
+type c01SeedDirCase struct {
+	Kind     string   `json:"kind"` // seeddir
+	BlobHex  string   `json:"blob_hex"`
+	Min      uint64   `json:"min"`
+	Avg      uint64   `json:"avg"`
+	Max      uint64   `json:"max"`
+	PriorHex string   `json:"prior_hex"`
+	InPlace  bool     `json:"in_place"`
+	DirSpell string   `json:"dir_spelling"`
+	IdxSpell string   `json:"index_spelling"`
+	Args     []string `json:"args,omitempty"`
+	Exit     int      `json:"exit"`
+	Note     string   `json:"note,omitempty"`
+}
+
+func c01CLISeedDirOne(a vh.Args, r *vh.Result, bin string, c *c01SeedDirCase) error {
+	desync.Digest = desync.SHA512256{}
+	dir, err := os.MkdirTemp(a.Work, "sd")
+	if err != nil {
+		return err
+	}
+	defer os.RemoveAll(dir)
+	blob := vh.UnHex(c.BlobHex)
+	sizes, err := chunkSizes(blob, c.Min, c.Avg, c.Max)
+	if err != nil {
+		return err
+	}
+	idx := indexOfPieces(blob, sizes, c.Min, c.Avg, c.Max)
+	images := filepath.Join(dir, "images")
+	os.Mkdir(images, 0755)
+	f, err := os.Create(filepath.Join(images, "new.caibx"))
+	if err != nil {
+		return err
+	}
+	if _, err := idx.WriteTo(f); err != nil {
+		return err
+	}
+	f.Close()
+	if err := os.WriteFile(filepath.Join(images, "new"), vh.UnHex(c.PriorHex), 0644); err != nil {
+		return err
+	}
+	storeDir := filepath.Join(dir, "store")
+	os.Mkdir(storeDir, 0755)
+	st, err := desync.NewLocalStore(storeDir, desync.StoreOptions{})
+	if err != nil {
+		return err
+	}
+	for _, ch := range idx.Chunks {
+		if err := st.StoreChunk(desync.NewChunk(blob[ch.Start : ch.Start+ch.Size])); err != nil {
+			return err
+		}
+	}
+	spell := func(kind, rel string) string {
+		switch kind {
+		case "abs":
+			return filepath.Join(dir, rel)
+		case "dot":
+			return "./" + rel
+		case "slashes":
+			return strings.Replace(rel, "/", "//", 1)
+		case "dotdot":
+			return "images/../" + rel
+		}
+		return rel
+	}
+	seedDir := spell(c.DirSpell, "images")
+	if c.DirSpell == "slashes" {
+		seedDir = "images/"
+	}
+	args := []string{"extract", "-s", storeDir, "--seed-dir", seedDir}
+	if c.InPlace {
+		args = append(args, "-k")
+	}
+	args = append(args, spell(c.IdxSpell, "images/new.caibx"), spell(c.IdxSpell, "images/new"))
+	c.Args = args
+	ctx, cancel := context.WithTimeout(context.Background(), 20*time.Second)
+	defer cancel()
+	cmd := exec.CommandContext(ctx, bin, args...)
+	cmd.Dir = dir
+	var stderr bytes.Buffer
+	cmd.Stderr = &stderr
+	err = cmd.Run()
+	c.Exit = 0
+	if err != nil {
+		if ee, ok := err.(*exec.ExitError); ok {
+			c.Exit = ee.ExitCode()
+		} else if ctx.Err() != nil {
+			c.Exit = -2
+		} else {
+			return err
+		}
+	}
+	r.Count(fmt.Sprintf("seeddir|%s|%s|%v|%d", c.DirSpell, c.IdxSpell, c.InPlace, len(blob)), true)
+	r.Dist("cli:seeddir:" + c.DirSpell + "/" + c.IdxSpell)
+	out, rerr := os.ReadFile(filepath.Join(images, "new"))
+	c.Note = strings.TrimSpace(stderr.String())
+	if len(c.Note) > 300 {
+		c.Note = c.Note[:300]
+	}
+	switch {
+	case c.Exit == 0 && (rerr != nil || !bytes.Equal(out, blob)):
+		r.Fail("predicate", "cli/exit0-with-wrong-output", "desync extract --seed-dir exited with status 0 but the output is not the indexed blob", c)
+	case c.Exit != 0:
+		r.Fail("predicate", "cli/seed-dir-holding-the-index-fails", "desync extract failed although the store holds every chunk; the only 'seed' in the seed directory is the index being extracted next to its unfinished target: "+c.Note, c)
+	}
+	return nil
+}
+
+func c01CLISeedDir(a vh.Args, r *vh.Result, rng *vh.Rand, bin string) error {
+	spellings := []string{"rel", "abs", "dot", "slashes", "dotdot"}
+	for _, ds := range spellings {
+		for _, is := range spellings {
+			c := c01Gen(rng)
+			blob := vh.UnHex(c.BlobHex)
+			if len(blob) == 0 {
+				blob = rng.Bytes(500)
+			}
+			if len(blob) > 20000 {
+				blob = blob[:20000]
+			}
+			prior := append([]byte{}, blob[:rng.Intn(len(blob))]...) // an unfinished earlier run
+			if rng.Bool() {
+				prior = rng.Bytes(1 + rng.Intn(len(blob)))
+			}
+			sc := &c01SeedDirCase{Kind: "seeddir", BlobHex: vh.Hex(blob), Min: c.Min, Avg: c.Avg, Max: c.Max, PriorHex: vh.Hex(prior),
+				InPlace: rng.Bool(), DirSpell: ds, IdxSpell: is}
+			if err := c01CLISeedDirOne(a, r, bin, sc); err != nil {
+				return err
+			}
 		}
 	}
 	return nil
